@@ -370,8 +370,9 @@ func expandSchemaRef(target Schema, parentRefs []string, resolver *schemaLoader,
 		return nil, err
 	}
 
-	if t == nil {
-		// guard for when continuing on error
+	if err != nil || t == nil {
+		// guard for when continuing on error: the unresolvable $ref is left as it was
+		// (a target of the wrong JSON type leaves a non-nil, empty schema behind the failed decoding)
 		return &target, nil
 	}
 
